@@ -62,12 +62,12 @@ PROPS = {
     },
     "C11": {
         "generators": [{"name": "C11"}],
-        "explanation": "Index.v: px_iter_all (a quiescent scan visits every slot once), px_split_slot_forward / px_put_other_chains / px_del_other_chains (a split only moves slots to the new last chain; put/delete touch one chain). Tie: Next call by call compared with the chain-index model, with writers between calls.",
+        "explanation": "DBProofsIter.v: C11_quiescent_scan (each live key exactly once, then done for ever), C11_truthful_at_return and C11_complete_untouched over every interleaving of Next calls with Put / Delete / compaction steps / Sync (cscan), on the chain index incl. splits that move keys during the scan. Tie: Next call by call compared with the chain-index model, with writers between calls.",
         "assumptions": COMMON_ASSUME,
     },
     "C12": {
         "generators": [{"name": "C12"}],
-        "explanation": "DBProofsBackup.v: the copied segments are the log at the snapshot instant whatever writers do meanwhile; recovery of the backup yields the snapshot contents. Tie: Backup stepped at its yield points with writers in between; ShapeCheck.backup_shape.",
+        "explanation": "DBProofsBackup.v: C12_schedule: for every interleaving of the backup micro-steps with writer operations the backup directory recovers to exactly the snapshot contents and the source is untouched (also when a copy reads a disk between two file-system calls of a writer). Tie: Backup stepped at its yield points with writers in between; ShapeCheck.backup_shape.",
         "assumptions": COMMON_ASSUME,
     },
     "C13": {
